@@ -26,6 +26,7 @@ import Sigc.Basic
   | `slot_base(const slot_base&)`, `slot_base(slot_base&&)`, both `operator=` | `Op.cpS`, `Op.mvS`, `Op.asgS`, `Op.masgS` cases of `apply` |
   | `slot::operator()`                                             | `callVar`                     |
   | `weak_raw_ptr(T*)`, copy ctor, `operator=`, dtor               | `slotAddCb` / `slotRemCb` in `connS`, `cpC`, `asgC`, `delC` |
+  | `~connection` of a connection object owned (`shared_ptr`) by a functor, run by the functor's destructor | `killConn` (in `destroyRep`) |
 
   The `weak_raw_ptr notifier` local of `notify_slot_rep_invalidated` / `delete_rep_with_check` is modelled by
   its meaning (is the representation still allocated? — rep identities are never reused), not by a list entry.
@@ -35,7 +36,9 @@ import Sigc.Basic
   `err` is set when a cascade runs out of fuel (`fuel s = s.nextRep + 2` — cannot happen, see
   `Sigc/Props/SlotG.lean`).  The model follows the library after the fixes of findings F10, F11 and F12 (both
   `operator=` store the new representation in the variable before they delete the old one; the copy assignment
-  reads `src.blocked_` before the exchange; `delete_rep_with_check()` clears `rep_` before it deletes).  No proofs in this file.
+  reads `src.blocked_` before the exchange; `delete_rep_with_check()` clears `rep_` before it deletes) and of F14
+  (8c41248: in these three places the observers of the old representation are notified — `notify_callbacks()` —
+  after `rep_` was switched and before the old representation is deleted).  No proofs in this file.
 -/
 namespace Sigc.SlotG
 
@@ -49,10 +52,12 @@ inductive Fun
                                             -- As a spec `v` is the variable to copy; in a stored functor `v` is the
                                             -- anonymous variable that is the bound copy and `depth` (ghost) bounds the
                                             -- nesting depth below it
+  | ownc (fid c : Nat)                      -- `OwnC{fid, shared_ptr<CHolder{C}>}`: the functor (its copies) owns the
+                                            -- connection object `C`
 deriving Repr, DecidableEq
 
 def Fun.fid : Fun → Nat
-  | .fn f | .mem f _ | .sref f _ | .own f _ _ | .nest f _ _ => f
+  | .fn f | .mem f _ | .sref f _ | .own f _ _ | .nest f _ _ | .ownc f _ => f
 
 /-- the trackable the functor refers to -/
 def Fun.trk : Fun → Option Nat
@@ -70,6 +75,11 @@ def Fun.ref : Fun → Option Nat
 def Fun.owns : Fun → Option Nat
   | .own _ v _ => some v
   | .nest _ v _ => some v
+  | _ => none
+
+/-- the connection object that dies with the last copy of the functor -/
+def Fun.ownsC : Fun → Option Nat
+  | .ownc _ c => some c
   | _ => none
 
 def Fun.depth : Fun → Nat
@@ -157,12 +167,19 @@ def Rep.ownsVar (R : Rep) (v : Nat) : Bool :=
   | some f => f.owns == some v
   | none => false
 
+def Rep.ownsConn (R : Rep) (c : Nat) : Bool :=
+  match R.fn with
+  | some f => f.ownsC == some c
+  | none => false
+
 /-- some live `sref` functor copy refers to `v` -/
 def pinned (s : State) (v : Nat) : Bool := anyRep s fun _ R => R.refs v
 /-- some live `sref` functor copy stored somewhere else than in `v`'s own representation refers to `v` -/
 def pinnedOther (s : State) (v : Nat) : Bool := anyRep s fun r R => R.refs v && repOf s v != some r
 /-- some live owning functor copy shares the holder of `v` (`use_count() > 0`) -/
 def ownedBy (s : State) (v : Nat) : Bool := anyRep s fun _ R => R.ownsVar v
+/-- some live functor copy shares the holder of connection `c` -/
+def ownedCBy (s : State) (c : Nat) : Bool := anyRep s fun _ R => R.ownsConn c
 
 def hasParent (s : State) (v : Nat) : Bool :=
   match repObj s v with
@@ -215,6 +232,7 @@ def bindFun (r : Nat) : Fun → State → State
   | .own _ _ (some t), s => trkAdd t r s
   | .own _ _ none, s => s
   | .nest _ v _, s => setParentIfNone v r s
+  | .ownc _ _, s => s
 
 /-- `visit_each_trackable(slot_do_unbind(r), functor)` -/
 def unbindFun (r : Nat) : Fun → State → State
@@ -224,6 +242,7 @@ def unbindFun (r : Nat) : Fun → State → State
   | .own _ _ (some t), s => trkRemove t r s
   | .own _ _ none, s => s
   | .nest _ v _, s => unsetParentIf v r s
+  | .ownc _ _, s => s
 
 /-- allocate representation `s.nextRep` -/
 def allocRep (R : Rep) (s : State) : State :=
@@ -302,6 +321,34 @@ def newRep (f : Fun) (s : State) : State :=
           ((cloneRepD false (depthOfRep s q) q s1).setSlot j (some ⟨some s1.nextRep, X.blocked⟩))
   | f => bindFun s.nextRep f (allocRep ⟨true, none, some f, []⟩ s)
 
+/-! ### the registration of a connection on a slot variable's representation -/
+
+/-- `slot_base::add_destroy_notify_callback(&c.slot_, …)` on variable `v` -/
+def slotAddCb (v c : Nat) (s : State) : State :=
+  match repOf s v with
+  | none => s
+  | some r => s.modRep r fun R => { R with cbs := R.cbs ++ [c] }
+
+/-- `slot_base::remove_destroy_notify_callback(&c.slot_)` on variable `v` -/
+def slotRemCb (v c : Nat) (s : State) : State :=
+  match repOf s v with
+  | none => s
+  | some r => s.modRep r fun R => { R with cbs := R.cbs.erase c }
+
+/-- the slot variable connection `c` points to -/
+def connTarget (s : State) (c : Nat) : Option Nat :=
+  match s.conns c with
+  | some p => p
+  | none => none
+
+/-- `~connection` = `~weak_raw_ptr`: `if (p_) p_->remove_destroy_notify_callback(this)` — through the slot
+    variable's **current** `rep_` (`slot_base::remove_destroy_notify_callback`: `if (rep_) rep_->…`) — and the
+    object is gone -/
+def killConn (c : Nat) (s : State) : State :=
+  (match connTarget s c with
+   | none => s
+   | some v => slotRemCb v c s).setConn c none
+
 /-! ### destruction -/
 
 /-- `weak_raw_ptr::notify_object_invalidated` for every connection in `cs` -/
@@ -329,7 +376,10 @@ def destroyRep : Nat → Nat → State → State
         let s1 := unbindFun r f (s.setRep r (some { R with call := false }))
         let s2 := s1.modRep r fun R' => { R' with fn := none }
         match f.owns with
-        | none => s2
+        | none =>
+          (match f.ownsC with
+           | none => s2
+           | some c => if ownedCBy s2 c then s2 else killConn c s2)   -- the last copy: `~CHolder` → `delete C`
         | some h =>
           if ownedBy s2 h then s2 else
           match s2.slots h with
@@ -368,13 +418,13 @@ def repDisconnect (r : Nat) (s : State) : State :=
     | some p => notifyInv (fuel s1) p s1
 
 /-- `slot_base::delete_rep_with_check()` on variable `v`: `rep_->disconnect(); if (notifier) { auto old_rep_ =
-    rep_; rep_ = nullptr; delete old_rep_; }` -/
+    rep_; rep_ = nullptr; old_rep_->notify_callbacks(); delete old_rep_; }` -/
 def deleteRepWithCheck (v : Nat) (s : State) : State :=
   match repOf s v with
   | none => s
   | some r =>
     let s1 := repDisconnect r s
-    if (s1.reps r).isSome then deleteRep r (s1.modSlot v fun V => { V with rep := none }) else s1
+    if (s1.reps r).isSome then deleteRep r (weakNotify r (s1.modSlot v fun V => { V with rep := none })) else s1
 
 def entryActive (s : State) (t r : Nat) : Bool :=
   match s.trks t with
@@ -392,24 +442,6 @@ def trkNotify (t : Nat) (s : State) : State :=
     s2.setTrk t (some ⟨[], false⟩)
 
 /-! ### connections -/
-
-/-- `slot_base::add_destroy_notify_callback(&c.slot_, …)` on variable `v` -/
-def slotAddCb (v c : Nat) (s : State) : State :=
-  match repOf s v with
-  | none => s
-  | some r => s.modRep r fun R => { R with cbs := R.cbs ++ [c] }
-
-/-- `slot_base::remove_destroy_notify_callback(&c.slot_)` on variable `v` -/
-def slotRemCb (v c : Nat) (s : State) : State :=
-  match repOf s v with
-  | none => s
-  | some r => s.modRep r fun R => { R with cbs := R.cbs.erase c }
-
-/-- the slot variable connection `c` points to -/
-def connTarget (s : State) (c : Nat) : Option Nat :=
-  match s.conns c with
-  | some p => p
-  | none => none
 
 /-- `connection::connected()` -/
 def connected (s : State) (c : Nat) : Bool :=
@@ -474,11 +506,17 @@ def Fun.names : Fun → List Nat × List Nat     -- (slot names, trackable names
   | .sref _ v => ([v], [])
   | .own _ v t => ([v], t.toList)
   | .nest _ v _ => ([v], [])
+  | .ownc _ _ => ([], [])
+
+/-- connection names a functor spec mentions -/
+def Fun.cnames : Fun → List Nat
+  | .ownc _ c => [c]
+  | _ => []
 
 /-- (slot, trackable, connection) names an operation mentions -/
 def Op.names : Op → List Nat × List Nat × List Nat
   | .newT t | .delT t | .notifyT t => ([], [t], [])
-  | .mkS v f | .setS v f => (v :: f.names.1, f.names.2, [])
+  | .mkS v f | .setS v f => (v :: f.names.1, f.names.2, f.cnames)
   | .mkS0 v | .clrS v | .delS v | .discS v | .blockS v _ | .unblockS v | .blockedS v | .emptyS v
   | .boolS v | .parentS v | .callS v _ => ([v], [], [])
   | .cpS a b | .mvS a b | .asgS a b | .masgS a b => ([a, b], [], [])
@@ -501,6 +539,7 @@ def specCheck (s : State) : Fun → Option String
     if (match t with | some t' => deadT s t' | none => false) then some "dead" else
     if pinned s v then some "pinned" else none
   | .nest _ v _ => if deadS s v then some "dead" else none
+  | .ownc _ c => if deadC s c then some "dead" else none
 
 /-- the refusal of an operation on program variables, `none` = it is performed -/
 def check0 (s : State) : Op → Option String
@@ -529,7 +568,8 @@ def check0 (s : State) : Op → Option String
   | .newC c => if deadC s c then none else some "exists"
   | .cpC j i => if deadC s i then some "dead" else if !deadC s j then some "exists" else none
   | .asgC d x => if deadC s d || deadC s x then some "dead" else none
-  | .delC c | .discC c | .connectedC c | .emptyC c | .blockedC c | .blockC c _ | .unblockC c =>
+  | .delC c => if deadC s c then some "dead" else if ownedCBy s c then some "owned" else none
+  | .discC c | .connectedC c | .emptyC c | .blockedC c | .blockC c _ | .unblockC c =>
     if deadC s c then some "dead" else none
   | .live _ => none
   | .bad => some "badop"
@@ -539,7 +579,8 @@ def check (s : State) (op : Op) : Option String :=
   if op.named then check0 s op else some "badop"
 
 /-- the tail shared by both assignment operators: `if (rep_) { new_rep_->set_parent(rep_->parent_, …);
-    auto old_rep_ = rep_; rep_ = new_rep_; delete old_rep_; } else rep_ = new_rep_;` -/
+    auto old_rep_ = rep_; rep_ = new_rep_; old_rep_->notify_callbacks(); delete old_rep_; } else rep_ = new_rep_;`
+    (the observers of the old representation are told while they still exist: the old functor may own one) -/
 def exchangeRep (d n : Nat) (s : State) : State :=
   match repOf s d with
   | none => s.modSlot d fun D => { D with rep := some n }
@@ -547,7 +588,8 @@ def exchangeRep (d n : Nat) (s : State) : State :=
     let par := match s.reps q with
       | some Q => Q.parent
       | none => none
-    deleteRep q ((s.modRep n fun N => { N with parent := par }).modSlot d fun D => { D with rep := some n })
+    deleteRep q (weakNotify q
+      ((s.modRep n fun N => { N with parent := par }).modSlot d fun D => { D with rep := some n }))
 
 /-- the effect of an operation that is not refused -/
 def apply : Op → State → State
@@ -725,6 +767,7 @@ def parseFun (w : String) : Option Fun :=
   | ["own", f, v] => do some (.own (← f.toNat?) (← parseName 'S' v) none)
   | ["own", f, v, t] => do some (.own (← f.toNat?) (← parseName 'S' v) (some (← parseName 'T' t)))
   | ["nest", f, v] => do some (.nest (← f.toNat?) (← parseName 'S' v) 0)
+  | ["ownc", f, c] => do some (.ownc (← f.toNat?) (← parseName 'C' c))
   | _ => none
 
 def parseBool (w : String) : Option Bool :=
